@@ -172,13 +172,31 @@ def run(ctx):
     ctx.check(got == [exp], "R04.2", uid, "kwargs override and extend func_args before dm.dispatch",
               msg=f"TriggerDecorator.dispatch hands {got} to the manager; with kwargs={{'var_name': 'override', 'extra': 1}} the documented result is {exp}", key="new kwargs override",
               node=program.func(uid), rel="decorator_abc.py")
-    tw = program.func("trigger.py::TrigInfo.trigger_watch")
-    names = [(call_name(n), n.lineno) for n in body_walk(tw) if isinstance(n, ast.Call) and call_name(n) in ("func_args.update", "self.call_action")]
-    ok = [n for n, _ in names][-2:] == ["func_args.update", "self.call_action"]
-    ctx.check(ok, "R04.2", "trigger.py::TrigInfo.trigger_watch", "legacy: func_args.update(user_kwargs) immediately precedes call_action", msg=f"legacy order is {names}", key="legacy kwargs override", node=tw, rel="trigger.py")
-    for k in ("state", "event", "mqtt", "webhook"):
-        ctx.check(f"user_kwargs = self.{k}_trigger_kwargs.get('kwargs', {{}})" in norm(tw), "R04.2", "trigger.py::TrigInfo.trigger_watch", f"legacy: {k} trigger kwargs selected",
-                  msg=f"legacy trigger_watch no longer selects the {k} trigger's kwargs", key=f"legacy {k} kwargs", node=tw, rel="trigger.py")
+    # legacy: one occurrence of every source kind delivered to the loop; what reaches the function is occurrence arguments overridden/extended by kwargs
+    from ..legacy import KINDS, WATCH, watch_occurrence
+    tw = program.func(WATCH)
+    for kind in KINDS:
+        collide = {"state": "value", "event": "payload", "mqtt": "payload", "webhook": "payload", "time": "trigger_type"}[kind]
+        uk = DictV([(Const("extra"), Const(1)), (Const(collide), Const("override"))])
+        recs, occ, _ = watch_occurrence(program, kind, filter_value=None if kind == "time" else True, user_kwargs=uk)
+        bad = None
+        if not recs:
+            bad = "no exit"
+        for r in recs:
+            if len(r["runs"]) != 1:
+                bad = f"{len(r['runs'])} run(s) for one accepted occurrence"
+                continue
+            got = r["runs"][0][1] if len(r["runs"][0]) > 1 else None
+            if not isinstance(got, DictV):
+                bad = f"call_action is given {got!r}"
+                continue
+            g = {k.v: v for k, v in got.items}
+            if g.get("extra") != Const(1) or g.get(collide) != Const("override"):
+                bad = f"the function receives {got!r}: kwargs={{'extra': 1, {collide!r}: 'override'}} must extend and override the occurrence's arguments"
+            elif occ is not None and any(g.get(k.v) != v for k, v in occ.items if k.v != collide):
+                bad = f"the function receives {got!r}: arguments of the occurrence {occ!r} are lost"
+        ctx.check(bad is None, "R04.2", WATCH, f"legacy {kind} occurrence: kwargs override and extend the arguments",
+                  msg=f"legacy trigger_watch, {kind} occurrence with kwargs={{'extra': 1, {collide!r}: 'override'}}: {bad}", key=f"legacy {kind} kwargs", node=tw, rel="trigger.py")
 
     ctx.rule("R04.4", "names referenced by a trigger expression: the analysis descends into every construct (only names and dotted names end the descent)", floor=1)
     f = program.func("eval.py::AstEval.get_names_set")
